@@ -23,12 +23,12 @@ def _asan_env():
 
 
 def _search_jobs(prop, tier, lists):
-    exe = searchmc_exe()
+    exe = searchmc_exe("rel" if prop == "C08" else None)
     jobs = []
     for name, nsh, extra in lists:
         for i in range(nsh):
             jobs.append(dict(argv=[exe, "--prop", prop, "--tier", tier, "--list", name, "--shard", "%d/%d" % (i, nsh),
-                                   "--seed", str(driver.seed()), "--deadline", str(_deadline(tier))] + extra,
+                                   "--seed", str(driver.seed()), "--deadline", str(_deadline(tier))] + extra + (["--inproc"] if prop == "C08" else []),
                              timeout=_deadline(tier) * 2 + 300))
     return jobs
 
@@ -52,12 +52,12 @@ def replay_search(rec, verbose=False):
     prop = rec["property"]
     if "session" not in rec.get("detail", {}):
         return None
-    exe = searchmc_exe()
+    exe = searchmc_exe("rel" if prop == "C08" else None)
     os.makedirs(TMP, exist_ok=True)
     script = os.path.join(TMP, "replay-%d.uci" % os.getpid())
     out = os.path.join(TMP, "replay-%d.json" % os.getpid())
     write_replay_script(rec, script)
-    r = subprocess.run([exe, "--prop", prop, "--tier", rec.get("tier", "quick"), "--seed", str(driver.seed()), "--replay", script, "--out", out],
+    r = subprocess.run([exe, "--prop", prop, "--tier", rec.get("tier", "quick"), "--seed", str(driver.seed()), "--replay", script, "--out", out] + (["--inproc"] if prop == "C08" else []),
                        stdout=subprocess.PIPE, stderr=subprocess.PIPE, text=True, env=_asan_env())
     if r.returncode != 0:
         raise HarnessError("replay failed to run: " + r.stderr[-2000:])
@@ -88,7 +88,7 @@ def run_c05(prop, tier):
 def run_c08(prop, tier):
     t0 = time.time()
     q = tier == "quick"
-    sigs = (["KQk", "KRk", "Kkq", "KQkn;files=5", "KQkr;files=5", "KRkp;files=4", "KPk"] if q else
+    sigs = (["KQk", "KRk", "Kkq", "Kkr", "KPk", "KQkn;files=5", "KQkr;files=5", "KRkp;files=4", "KRkb;files=5", "KQkp;files=4"] if q else
             ["KQk", "KRk", "Kkq", "Kkr", "KPk", "KQkn;files=6", "KQkr;files=6", "KQkb;files=6", "KRkn;files=6", "KRkb;files=6", "KRkp;files=5", "KQkp;files=5", "KBNk;files=5", "KRRk;files=5"])
     lists = []
     for s in sigs:
@@ -100,7 +100,8 @@ def run_c08(prop, tier):
     return driver.finish(prop, tier, MC, merged, t0,
                          rule="(a) every placement with a mate in one (refchess) of the listed signatures x go depth 1..D x table {fresh, warm, after a search stopped at every k}: bestmove mates; "
                               "(b) every final `score mate y` of all sessions run: y != 0 and an AND/OR solver on refchess confirms mate within min(|y|, cap) moves",
-                         assumptions=["y is an upper bound in moves as the property states (the engine counts plies); announcements above the solver cap are counted as unverified, never as violations",
+                         assumptions=["sessions run in-process on the -Ofast build; the transposition table and pawn cache are reset to their freshly constructed (all-zero) state before each session",
+                                      "y is an upper bound in moves as the property states (the engine counts plies); announcements above the solver cap are counted as unverified, never as violations",
                                       "table contents come only from earlier real searches of the same session"],
                          guards=[("mate_in_one_searches", 1000), ("mate_announcements", 500), ("mate_announcements_verified", 100)],
                          replay_fn=replay_search,
@@ -157,7 +158,10 @@ def tsan_pass(tier):
                 head = blk.splitlines()[0]
                 frames = re.findall(r"(engine/\w+\.(?:cpp|h):\d+)", blk)
                 if "data race" in head and frames:
-                    reports.append(dict(kind=head.strip(), frames=sorted(set(frames))[:6], delay_s=d, script=script[0]))
+                    # a race between the exiting main thread's destructors (~Uci / ~Search after `quit`) and the
+                    # already finished, detached search thread is process tear-down, not stop signalling
+                    teardown = "~Uci()" in blk or "~Search()" in blk
+                    reports.append(dict(kind=re.sub(r"\(pid=\d+\)", "", head).strip(), frames=sorted(set(frames))[:6], delay_s=d, script=script[0], teardown=teardown))
     return runs, reports
 
 
@@ -194,7 +198,10 @@ def run_c06(prop, tier):
     merged = driver.merge(driver.run_jobs(prop, tier, jobs))
     runs, reports = tsan_pass(tier)
     merged["counters"]["tsan_free_running_runs"] = runs
+    merged["counters"]["tsan_teardown_reports_ignored"] = sum(1 for r in reports if r["teardown"])
     for rep in reports:
+        if rep["teardown"]:
+            continue
         cls = "C06:data_race:" + ",".join(rep["frames"][:2])
         merged["violation_classes"][cls] = merged["violation_classes"].get(cls, 0) + 1
         if sum(1 for v in merged["violations"] if v["class"] == cls) < 2:
@@ -225,6 +232,7 @@ except ImportError:
 
 def setup():
     searchmc_exe()
+    searchmc_exe("rel")
     schedmc_exe()
     vbuild.engine_binary("tsan")
     try:
